@@ -99,8 +99,8 @@ DeleteReasons(st, c) ==
          LET v == ViewOf(st, s) IN
          IF v \in Gone \cup {"s5xx"} THEN {}
          ELSE IF v = "commerr" THEN {R("call-on-communication-error", s)}
-         ELSE IF st.kind = "fs" /\ st.cur.src = s /\ st.cur.evt \in {"REMOVE", "RENAME"}
-              THEN {}   \* a lagging remove notification; the re-creation is judged at quiescence
+         \* also upon a lagging remove notification (the file exists again): what the file holds now
+         \* decides, unloading it would be a reload of unchanged content or a change applied in two steps
          ELSE {R("delete-of-existing-source", s)}
          : s \in own }
 
